@@ -5,6 +5,7 @@ package shaping
 import (
 	"github.com/go-text/typesetting/di"
 	"github.com/go-text/typesetting/font"
+	"github.com/go-text/typesetting/harfbuzz"
 	"github.com/go-text/typesetting/language"
 	"golang.org/x/image/math/fixed"
 )
@@ -104,5 +105,42 @@ func VfH_C12_shape() {
 		}
 		vfReach("sideways")
 	}
+	vfReach("end")
+}
+
+// H-C13-shaper: one HarfbuzzShaper used for a first input and then for a second one returns what a fresh
+// shaper returns for the second. The two inputs may use two distinct faces of ONE font (two variation
+// instances): the stubbed HarfBuzz is a function of the face it was built for, as the real one is.
+func VfH_C13_shaper() {
+	vfInstallHarfbuzzStub()
+	shared := &font.Font{}
+	faces := [2]*font.Face{{Font: shared}, {Font: shared}}
+	vfStubFaceOf = map[*harfbuzz.Font]int{}
+	vfStubFaces = faces[:]
+	dirs := [...]di.Direction{di.DirectionLTR, di.DirectionTTB}
+	mk := func(name string) Input {
+		return Input{
+			Text: []rune{'a', 'b'}, RunStart: 0, RunEnd: 1 + vfChoice(name+"Len", 2),
+			Direction: dirs[vfChoice(name+"Dir", len(dirs))], Face: faces[vfChoice(name+"Face", 2)],
+			Size: fixed.Int26_6(vfInt("size", 1, 4096*64)), Script: language.Latin, Language: "en",
+		}
+	}
+	a, b := mk("first"), mk("second")
+	var used, fresh HarfbuzzShaper
+	ncache := 2
+	if vfThorough() {
+		ncache = 3
+	}
+	used.SetFontCacheSize(vfChoice("cacheSize", ncache))
+	fresh.SetFontCacheSize(2)
+	used.Shape(a)
+	got := used.Shape(b)
+	want := fresh.Shape(b)
+	vfAssert(len(got.Glyphs) == len(want.Glyphs), "reused shaper: different glyph count than a fresh shaper")
+	for i := range got.Glyphs {
+		g, w := got.Glyphs[i], want.Glyphs[i]
+		vfAssert(g.GlyphID == w.GlyphID && g.ClusterIndex == w.ClusterIndex && g.XAdvance == w.XAdvance && g.YAdvance == w.YAdvance && g.Width == w.Width, "reused shaper returns different glyphs than a fresh shaper (state leaked from the previous call)")
+	}
+	vfAssert(got.Advance == want.Advance && got.LineBounds == want.LineBounds, "reused shaper returns different run metrics than a fresh shaper")
 	vfReach("end")
 }
